@@ -43,13 +43,12 @@ var dealerRole = wamp.Dict{ //nolint:gochecknoglobals
 
 // remoteProcedure tracks in-progress remote procedure call
 type registration struct {
-	id             wamp.ID  // registration ID
-	procedure      wamp.URI // procedure this registration is for
-	created        string   // when registration was created
-	match          string   // how procedure uri is matched to registration
-	policy         string   // how callee is selected if shared registration
-	forwardTimeout bool     // callee requests to handle the timeout logic
-	nextCallee     int      // choose callee for round-robin invocation.
+	id         wamp.ID  // registration ID
+	procedure  wamp.URI // procedure this registration is for
+	created    string   // when registration was created
+	match      string   // how procedure uri is matched to registration
+	policy     string   // how callee is selected if shared registration
+	nextCallee int      // choose callee for round-robin invocation.
 
 	// Multiple sessions can register as callees depending on invocation policy
 	// resulting in multiple procedures for the same registration ID.
@@ -58,6 +57,9 @@ type registration struct {
 	// Callees that requested disclosure of caller identity and were allowed
 	// to. Each callee of a shared registration gets what it asked for itself.
 	disclose map[*wamp.Session]struct{}
+
+	// Callees that requested to handle the call timeout themselves.
+	forwardTimeout map[*wamp.Session]struct{}
 }
 
 // invocation tracks in-progress invocation.
@@ -460,13 +462,12 @@ func (d *dealer) syncRegister(callee *wamp.Session, msg *wamp.Register, match, i
 		regID = d.idGen.Next()
 		created = wamp.NowISO8601()
 		reg = &registration{
-			id:             regID,
-			procedure:      msg.Procedure,
-			created:        created,
-			match:          match,
-			policy:         invokePolicy,
-			forwardTimeout: forwardTimeout,
-			callees:        []*wamp.Session{callee},
+			id:        regID,
+			procedure: msg.Procedure,
+			created:   created,
+			match:     match,
+			policy:    invokePolicy,
+			callees:   []*wamp.Session{callee},
 		}
 		d.registrations[regID] = reg
 		switch match {
@@ -557,6 +558,12 @@ func (d *dealer) syncRegister(callee *wamp.Session, msg *wamp.Register, match, i
 			reg.disclose = map[*wamp.Session]struct{}{}
 		}
 		reg.disclose[callee] = struct{}{}
+	}
+	if forwardTimeout {
+		if reg.forwardTimeout == nil {
+			reg.forwardTimeout = map[*wamp.Session]struct{}{}
+		}
+		reg.forwardTimeout[callee] = struct{}{}
 	}
 
 	// Add the registration ID to the callees set of registrations.
@@ -911,7 +918,7 @@ func (d *dealer) syncCall(caller *wamp.Session, msg *wamp.Call) {
 		// Check that callee supports call_timeout and requested
 		// forward_timeout - if YES then propagate timeout value and handling
 		// to the callee side
-		if callee.HasFeature(wamp.RoleCallee, wamp.FeatureCallTimeout) && reg.forwardTimeout {
+		if _, fwd := reg.forwardTimeout[callee]; fwd && callee.HasFeature(wamp.RoleCallee, wamp.FeatureCallTimeout) {
 			if !ok { // Propagate the option only during first progressive call.
 				details[wamp.OptTimeout] = callerTimeout
 			}
@@ -1405,6 +1412,7 @@ func (d *dealer) syncDelCalleeReg(callee *wamp.Session, regID wamp.ID) (bool, er
 				reg.callees = append(reg.callees[:i], reg.callees[i+1:]...)
 			}
 			delete(reg.disclose, callee)
+			delete(reg.forwardTimeout, callee)
 			found = true
 			break
 		}
